@@ -236,3 +236,40 @@ Lemma start_stop_errors :
   (start_call true = (false, true)) /\ (stop_call false = (false, false)) /\
   (snd (start_call (snd (stop_call true))) = true).
 Proof. repeat split; try (intros []; reflexivity). Qed.
+
+(* ---- the readers: Stop also waits for them (they are in the same wait group) ------------------------------
+   A reader that still holds a datagram when quit closes stands in a select between the dispatch channel and
+   quit: it either gets the datagram in (SLateEnq) or leaves with it (SLateLeave).  With the readers counted, every
+   action of Stop, the workers and the readers that changes the state lowers the measure ... *)
+Definition smeasure2 (s : sstate) : nat := smeasure s + 3 * length (late s).
+
+Lemma measure2_decreases cap s a : sstep cap s a = s \/ smeasure2 (sstep cap s a) < smeasure2 s.
+Proof.
+  destruct a as [|w|w| |].
+  - destruct (measure_decreases cap s SPush I) as [H|H]; [left; exact H|right]. unfold smeasure2.
+    replace (late (sstep cap s SPush)) with (late s); [lia|]. cbn [sstep].
+    destruct (negb (Nat.eqb (pending s) 0) && sroom cap s); reflexivity.
+  - destruct (measure_decreases cap s (SDeq w) I) as [H|H]; [left; exact H|right]. unfold smeasure2.
+    replace (late (sstep cap s (SDeq w))) with (late s); [lia|]. cbn [sstep].
+    destruct (nth_error (sworkers s) w) as [[|id|]|]; try reflexivity. destruct (squeue s) as [|[id|] q]; reflexivity.
+  - destruct (measure_decreases cap s (SFin w) I) as [H|H]; [left; exact H|right]. unfold smeasure2.
+    replace (late (sstep cap s (SFin w))) with (late s); [lia|]. cbn [sstep].
+    destruct (nth_error (sworkers s) w) as [[|id|]|]; reflexivity.
+  - cbn [sstep]. destruct (late s) as [|id r] eqn:El; [left; reflexivity|].
+    destruct (sroom cap s); [|left; reflexivity]. right.
+    unfold smeasure2, smeasure, busy_count. cbn [pending squeue sworkers late]. rewrite El, app_length. cbn [length]. lia.
+  - cbn [sstep]. destruct (late s) as [|id r] eqn:El; [left; reflexivity|]. right.
+    unfold smeasure2, smeasure, busy_count. cbn [pending squeue sworkers late]. rewrite El. cbn [length]. lia.
+Qed.
+
+(* ... and a reader that holds a datagram can always leave *)
+Lemma reader_can_leave cap s : late s <> [] -> sstep cap s SLateLeave <> s.
+Proof.
+  intros H E. cbn [sstep] in E. destruct (late s) as [|id r] eqn:El; [congruence|].
+  apply (f_equal late) in E. cbn [late] in E. rewrite El in E.
+  apply (f_equal (@length nat)) in E. cbn [length] in E. lia.
+Qed.
+
+(* the same receiver with readers that do a plain send once quit is closed (no way out through quit): *)
+Definition sstep_plain_send (cap : nat) (s : sstate) (a : saction) : sstate :=
+  match a with SLateLeave => s | _ => sstep cap s a end.
